@@ -1,4 +1,4 @@
-import HexProofs.Writes.Hexital
+import HexProofs.Writes.Twin
 import HexProofs.Lib.IntInst
 /-
 C08 – Indicators inside a Hexital behave exactly like the same indicators standalone (every `F`).
@@ -11,9 +11,15 @@ Proved here:
     `Indicator.calculate()` of the standalone object made of the member's tree, the member's manager and the
     member's `_active_index`, stores the resulting manager back, and `reading_as_list(name)` is that object's
     `as_list()`.
-Stated, not proved (`members_FULL`): equality with a standalone twin that was fed the same raw stream
-(mixed timeframes, construction forms).  It needs (i) read-set locality of every kind (the twin's candles do
-not carry the other members' keys) and (ii) the manager refinement for member timeframes.
+  * `member_standalone`: a member WITHOUT its own timeframe, in a Hexital with any other members (any
+    timeframes), under any program of `calculate / calculate_index / purge / recalculate / append`, ends with
+    the same collapsed candles and the same readings as the standalone indicator with the same tree
+    constructed from the same candles and driven with the same program – provided the member's tree neither
+    writes under nor can read a name of another member (read-set locality of all 28 kinds,
+    `HexProofs/Writes/StripEngine.lean`; the candle manager never looks at readings, `StripManager.lean`).
+Stated, not proved (`members_FULL`): the same for members WITH their own timeframe (needs the manager
+refinement: collapsing the default manager's candles = collapsing the raw stream) and for the dict / settings
+construction forms (not part of this model layer).
 -/
 namespace Hex.C08
 open Hex
@@ -134,18 +140,41 @@ theorem member_column (h h' : Hexital F) (name : String) (hi : HxInd F) (m : Man
     rw [dlookup_dset_self]
     rfl
 
+/-! ### a member without its own timeframe = its standalone twin -/
+
+/-- **Members on the default manager behave exactly like standalone indicators.**  `N` collects the
+names of all other members; `TreeOK N a.tree` says that `a`'s tree writes under none of them and
+that none of the names it reads can resolve to one of them (no collision, no input dependency). -/
+theorem member_standalone (cfg : MgrCfg) (tf : Option String) (init : List (Candle F))
+    (members : List (Member F)) (a : Member F) (N : List String) (ops : List (TwinOp F)) (H : Hexital F)
+    (ha : a ∈ Hexital.dedupe members) (hatf : a.tfName = none)
+    (hoth : ∀ m, m ∈ Hexital.dedupe members → m.tree.name ≠ a.tree.name → ∀ k, k ∈ m.tree.allNames → k ∈ N)
+    (hok : TreeOK N a.tree) (hrun : runHexital cfg tf init members ops = .ok H) :
+    ∃ twin, runTwin a.tree cfg init ops = .ok twin ∧
+      (∃ hi m, dlookup a.tree.name H.indicators = some hi ∧ hi.tree = a.tree ∧
+        dlookup hi.mgrKey H.managers = some m ∧ m.cfg = twin.mgr.cfg ∧
+        m.candles.map Candle.core = twin.mgr.candles.map Candle.core ∧
+        ∀ k, k ∈ a.tree.allNames → storedUnder k m.candles = storedUnder k twin.mgr.candles) ∧
+      (∀ name, (splitDot name).headD "" = a.tree.name → readOK N name = true →
+        H.readingAsList name = .ok (twin.asList (some name))) := by
+  obtain ⟨twin, hrun', ht, inv⟩ := member_twin cfg tf init members a ops H ha hatf hoth hok hrun
+  refine ⟨twin, hrun', ?_, fun name hp hr => inv.column name hp hr⟩
+  obtain ⟨hi, m, h1, h2, h3, h4, h5, h6⟩ := inv.readings (ht ▸ hok)
+  exact ⟨hi, m, h1, h2.trans ht, h3, h4, h5, fun k hk => h6 k (ht ▸ hk)⟩
+
 /-- **General statement (not proved).**  For every Hexital configuration, member set (any mix of
 timeframes), raw stream and append schedule: each member's manager holds the same candles (OHLCV,
 timestamps, and the readings under the member's names) as a standalone indicator with the same
 effective configuration – `cfg` with the member's own timeframe if it has one – constructed from the
 same initial candles and fed the same chunks.
 
-Status.  Before the library's Heikin-Ashi repair this was FALSE for Heikin-Ashi + a member timeframe
-(the member manager was built from already converted candles); the model now hands raw candles to a
-new member manager.  What a proof needs beyond this file: (i) read-set locality of every indicator kind
-(the twin's candles do not carry the other members' readings); (ii) for member timeframes, that
-collapsing the default manager's processed candles equals collapsing the raw stream (C03's
-`Resample.run (Resample.run s ++ new) = Resample.run (s ++ new)`, plus fill / lifespan interplay,
+Status.  `member_standalone` above proves it for every member without its own timeframe (given the
+no-collision / no-input-dependency hypothesis `TreeOK`, which the property presupposes).  Before the
+library's Heikin-Ashi repair the general statement was FALSE for Heikin-Ashi + a member timeframe (the
+member manager was built from already converted candles); the model now hands raw candles to a new
+member manager.  What is missing for members WITH a timeframe: that collapsing the default manager's
+processed candles equals collapsing the raw stream (C03's
+`Resample.run (Resample.run s ++ new) = Resample.run (s ++ new)`, plus the fill / lifespan interplay,
 which is not established: a Hexital-level `timeframe` AND a different member timeframe collapse twice). -/
 def members_FULL : Prop :=
   ∀ {F : Type} [PyF F] (cfg : MgrCfg) (tfName : Option String) (members : List (Member F))
@@ -204,6 +233,22 @@ example : (match exHex with
                     | .error _ => false)
        | .error _ => false)
     | .error _ => false) = true := by decide +kernel
+
+/-- hypotheses of `member_standalone`: `SMA_2` next to the composite `RSI_2` (names `RSI_2`, `RSI_2_data`),
+a program mixing appends with maintenance aimed at everything, at the member and at the other member -/
+def exOps : List (TwinOp Int) :=
+  [.calculate none, .append [exCandle 16, exCandle 12], .purge (some "RSI_2"), .calculateIndex none 3,
+   .recalculate (some "SMA_2"), .append [exCandle 18], .calculate (some "RSI_2")]
+
+example : (exA ∈ Hexital.dedupe [exB, exA] ∧ exA.tfName = none) ∧
+    treeOKb exB.tree.allNames exA.tree = true ∧
+    isOk (runHexital {} none exCandles [exB, exA] exOps) = true ∧
+    (match runTwin exA.tree {} exCandles exOps with
+     | .ok twin => (twin.asList none).map Val.isNone
+     | .error _ => []) = [true, false, false, false, false, false, false, false, false] := by
+  refine ⟨⟨?_, rfl⟩, ?_, ?_, ?_⟩
+  · simp [Hexital.dedupe, exA, exB, mkTop, Ind.name, dset]
+  all_goals decide +kernel
 
 end Examples
 
